@@ -62,15 +62,18 @@ def ds_errors(V, fn, what):
         out.prove('raises-ValueError', out.raised is not None and out.raised.kind == 'ValueError')
 
 
-@unit('C20', 'c_h_factor-array-form', functions=[DS + 'c_h_factor'], cases=[dict(site=s) for s in 'CDE'], modes=('unbounded',))
-def ch_array(V, site):
+@unit('C20', 'c_h_factor-array-form', functions=[DS + 'c_h_factor'],
+      cases=[dict(site=s, container=c, dtype=d) for s in 'CDE' for c in ('array', 'list', 'tuple') for d in ('float', 'int')], modes=('unbounded',))
+def ch_array(V, site, container, dtype):
+    """period containers of every kind and element type (integer periods such as np.arange(0, 6) are legal input)"""
     st = {}
 
     def setup():
-        p = V.array('P', 2)
+        p = V.array('P', 2, dtype)
         V.assume(p[0] >= 0, p[1] >= 0)
         st['p'] = p
-        return dict(period=p, site_class=site)
+        arg = p if container == 'array' else ([p[0], p[1]] if container == 'list' else (p[0], p[1]))
+        return dict(period=arg, site_class=site)
     f = V.itp.get_function(DS + 'c_h_factor')
     for out in V.run(DS + 'c_h_factor', setup):
         if not out.no_raise():
@@ -81,7 +84,9 @@ def ch_array(V, site):
         out.prove('one-value-per-period', ok)
         if ok:
             for k in range(2):
-                out.prove('entry-%d-equals-scalar-form' % k, T.seq(r[k], V.itp.call(f, [p[k], site], {})))
+                out.prove('entry-%d-equals-scalar-form' % k, T.seq(r[k], V.itp.call(f, [T.to_real(p[k]), site], {})))
+        if container == 'array':
+            out.unchanged('P', p)
 
 
 def _emit_pow_facts(term):
